@@ -22,6 +22,12 @@ op codes (a = argument list)           observation
  14 new_acc    slot n p_bits seed num_bits nh   [capacity, num_hashes]   (with_accuracy; num_bits/nh = the
                                        generator's recomputation of the ln-based sizing, used by the model)
  15 fpp_probe  slot bound (item h0 h1)*   [number of probes reported as contained]
+ 20 insert_item / 21 contains_item / 22 contains_and_insert_item
+               slot kind h0 h1 payload...   as 1 / 2 / 3 for an item that is not an i64: kind 1 &str, 6 String (payload =
+                                       the UTF-8 bytes), 2 (u64,u64), 3 (u64,u64,u64,u64), 4 &[u8] (payload = the bytes),
+                                       5 u128 (payload = low, high u64).  h0, h1 = XXH64 of the CONCATENATED byte stream
+                                       std's Hash impl feeds the hasher in several write calls (str: bytes, then 0xff;
+                                       tuple: 8 LE bytes per component; slice: 8-byte LE length, then the bytes; u128: 16 LE bytes)
  16 fork       src dst                 [1] / ERR     (dst := deserialize(serialize(src)), src kept)
  18 probe      slot item               [1]           (a CLONE of the filter inserts the item and is asked for it:
                                        the crate hashes; the model answers by the no-false-negative theorem, so
@@ -51,16 +57,65 @@ GEN_MODULES = [("GenBloom", ["bloom/sketch.rs", "bloom/builder.rs"],
                 ["SERIAL_VERSION", "EMPTY_FLAG_MASK", "DIRTY_BITS_VALUE", "MIN_NUM_BITS", "MIN_NUM_HASHES", "MAX_NUM_HASHES"])]
 OPNAMES = {0: "new", 1: "insert", 2: "contains", 3: "contains_and_insert", 4: "union", 5: "intersect", 6: "invert",
            7: "reset", 8: "bits_used", 9: "serialize", 10: "roundtrip", 11: "deserialize", 12: "info", 13: "is_compatible",
-           14: "new_with_accuracy", 15: "fpp_probe", 16: "fork", 17: "parse", 18: "probe_clone", 19: "roundtrip_check"}
+           14: "new_with_accuracy", 15: "fpp_probe", 16: "fork", 17: "parse", 18: "probe_clone", 19: "roundtrip_check",
+           20: "insert_item", 21: "contains_item", 22: "contains_and_insert_item"}
 NSLOTS = 6
 M64 = (1 << 64) - 1
 
 
+# Items.  An i64 item is a Python int (ops 1-3).  Any other item is a pair (kind, payload tuple) (ops 20-22): its std::hash::Hash
+# impl feeds the hasher through SEVERAL write calls or one long one, so that XxHash64's buffering is exercised:
+K_STR, K_PAIR, K_QUAD, K_BYTES, K_U128, K_STRING = 1, 2, 3, 4, 5, 6
+
+
+def item_writes(x):
+    """the byte strings std's Hash impl passes to Hasher::write, one entry per call"""
+    if isinstance(x, int):
+        return [pyref.i64_item_bytes(x)]                      # i64: one 8-byte write
+    k, p = x
+    if k in (K_STR, K_STRING):
+        return [bytes(p), b"\xff"]                            # str / String: the bytes, then a 0xff terminator
+    if k in (K_PAIR, K_QUAD):
+        return [pyref.le8(v) for v in p]                      # tuples of u64: one 8-byte write per component
+    if k == K_BYTES:
+        return [pyref.le8(len(p)), bytes(p)]                  # &[u8]: usize length prefix, then the bytes
+    if k == K_U128:
+        return [pyref.le8(p[0]) + pyref.le8(p[1])]            # u128 (lo, hi): one 16-byte write
+    raise ValueError(x)
+
+
 def hashes(item, seed):
-    b = pyref.i64_item_bytes(item)
+    b = b"".join(item_writes(item))
     h0 = pyref.xxh64(b, seed)
     h1 = pyref.xxh64(b, h0)
     return h0, h1
+
+
+def item_op(code, s, x, seed):
+    """insert (1) / contains (2) / contains_and_insert (3) of item x on slot s: the op for its type"""
+    h0, h1 = hashes(x, seed)
+    if isinstance(x, int):
+        return (code, [s, x, h0, h1])
+    return (19 + code, [s, x[0], h0, h1] + list(x[1]))
+
+
+# lengths around the 32-byte stripe of XXH64 (the 0xff terminator / the 8-byte length prefix shift them by 1 / 8)
+STR_LENS = [0, 1, 7, 8, 9, 23, 24, 25, 30, 31, 32, 33, 39, 40, 55, 56, 62, 63, 64, 65, 94, 95, 96, 97, 100]
+
+
+def rand_general_item(rng):
+    k = rng.choice([K_STR, K_STR, K_STRING, K_PAIR, K_QUAD, K_QUAD, K_BYTES, K_BYTES, K_U128])
+    if k in (K_STR, K_STRING):
+        n = rng.choice(STR_LENS + [rng.randint(0, 100)])
+        return (k, tuple(rng.randrange(32, 127) for _ in range(n)))
+    if k == K_PAIR:
+        return (k, (rng.getrandbits(64), rng.choice([0, M64, rng.getrandbits(64)])))
+    if k == K_QUAD:
+        return (k, tuple(rng.choice([0, M64, rng.getrandbits(64), rng.getrandbits(64)]) for _ in range(4)))
+    if k == K_BYTES:
+        n = rng.choice(STR_LENS + [rng.randint(0, 100)])
+        return (k, tuple(rng.randrange(256) for _ in range(n)))
+    return (k, (rng.getrandbits(64), rng.choice([0, rng.getrandbits(64)])))
 
 
 def positions(h0, h1, nh, cap):
@@ -136,9 +191,11 @@ def gen_case(rng, cid, tier, focus=None):
     big = num_bits > 16384
     nslots = rng.choice([1, 2, 2, 3, 4])
     ndom = rng.choice([1, 3, 8, 20, 60] if not big else [1, 3, 8, 20])
-    dom = [rng.choice(ITEMS + [rng.getrandbits(64) - 2**63, rng.randint(-100, 100)]) for _ in range(ndom)]
+    # about 40% of the items are not i64: strings, tuples, byte slices, u128 (several / long Hasher::write calls)
+    dom = [rand_general_item(rng) if rng.random() < 0.4 else rng.choice(ITEMS + [rng.getrandbits(64) - 2**63, rng.randint(-100, 100)])
+           for _ in range(ndom)]
     dom = list(dict.fromkeys(dom))
-    unseen = [x for x in (123456789, -987654321, 77, 2**40 + 3) if x not in dom]
+    unseen = [x for x in (123456789, -987654321, 77, 2**40 + 3) if x not in dom] + [rand_general_item(rng)]
     nops = rng.choice([6, 25, 70]) if tier == "quick" else rng.choice([25, 120, 400])
     if big:
         nops = min(nops, 25)
@@ -149,9 +206,8 @@ def gen_case(rng, cid, tier, focus=None):
         fl[s] = PyFilter(nb_, nh_, sd_)
         ops.append((0, [s, nb_, nh_, sd_]))
 
-    def item_args(s, x):
-        h0, h1 = hashes(x, fl[s].seed)
-        return [s, x, h0, h1]
+    def iop(code, s, x):
+        return item_op(code, s, x, fl[s].seed)
 
     for s in range(nslots):
         # same request, or another request that rounds to the same number of words (still compatible)
@@ -166,13 +222,13 @@ def gen_case(rng, cid, tier, focus=None):
         r = rng.random()
         if r < 0.34:
             x = rng.choice(dom)
-            ops.append((1, item_args(s, x))); f.insert(x)
+            ops.append(iop(1, s, x)); f.insert(x)
         elif r < 0.44:
             x = rng.choice(dom)
-            ops.append((3, item_args(s, x))); f.insert(x)
+            ops.append(iop(3, s, x)); f.insert(x)
         elif r < 0.60:
             x = rng.choice(dom + unseen)
-            ops.append((2, item_args(s, x)))
+            ops.append(iop(2, s, x))
         elif r < 0.68 and nslots > 1:
             o = rng.randrange(nslots)
             if o != s and f.compatible(fl[o]):
@@ -249,11 +305,11 @@ def gen_case(rng, cid, tier, focus=None):
             ops.append((11, [s] + img))      # rejected: the slot keeps its filter
     for s in range(nslots):
         f = fl[s]
-        for x in dom + unseen[:2]:
-            ops.append((2, item_args(s, x)))
+        for x in dom + unseen[:2] + unseen[-1:]:
+            ops.append(iop(2, s, x))
         ops.append((8, [s])); ops.append((12, [s])); ops.append((9, [s])); ops.append((10, [s])); ops.append((9, [s]))
-        for x in sorted(f.items)[:8]:
-            ops.append((2, item_args(s, x)))
+        for x in sorted(f.items, key=repr)[:8]:
+            ops.append(iop(2, s, x))
     return Case(cid, [NSLOTS], ops, tag="bloom")
 
 
@@ -752,7 +808,11 @@ def gen_size_case(rng, cid, tier):
     num_bits = rng.choice([1, 64, 65, 1000, 4096, 5000, 65536])
     nh = rng.choice([1, 3, 7])
     seed = rng.choice(SEEDS)
-    top = (10 if num_bits > 5000 else 12) if tier == "quick" else (13 if num_bits > 5000 else 15)
+    # the Spec oracle keeps the set as a characteristic vector (cost ~ capacity per position): the stream length is chosen so
+    # that items * num_hashes * capacity stays within a budget
+    cap = (num_bits + 63) // 64 * 64
+    budget = 5 * 10**6 if tier == "quick" else 10**8
+    top = max(4, min(13 if tier == "quick" else 16, (budget // (nh * cap)).bit_length() - 1))
     kind = rng.choice(["distinct", "repeated", "descending"])
     base = rng.randint(-10**9, 10**9)
     ops = [(0, [0, num_bits, nh, seed]), (9, [0]), (12, [0])]
@@ -812,8 +872,8 @@ def nontrivial(case, obs):
     """non-trivial: at least two distinct items inserted and at least one membership query or array dump; or a fork whose
     twins are then both operated on; or at least 3 parsed images of which one is accepted and one rejected; or a foreign
     image that is accepted and then queried"""
-    items = {a[1] for (c, a) in case.ops if c in (1, 3)}
-    if len(items) >= 2 and any(c in (2, 9) for (c, a) in case.ops):
+    items = {a[1] for (c, a) in case.ops if c in (1, 3)} | {tuple(a[1:2] + a[4:]) for (c, a) in case.ops if c in (20, 22)}
+    if len(items) >= 2 and any(c in (2, 9, 21) for (c, a) in case.ops):
         return True
     if any(c == 16 for (c, a) in case.ops) and any(c in (1, 3, 4, 6) for (c, a) in case.ops):
         return True
